@@ -65,7 +65,9 @@ type lfunc struct {
 	acqs  []acqSite
 	calls []callSite
 	// session-field accesses (filled by the same walk, see sessfields.go)
-	sfAcc []sfAccess
+	sfAcc   []sfAccess
+	parent  *lfunc   // for a closure run on another goroutine: the function that contains it
+	goCalls []*lfunc // functions started with a go statement
 	// transitive acquisitions: lock -> chain of function names ending with "file:line" of the Lock call
 	acqT map[string][]string
 }
@@ -76,6 +78,9 @@ type lockProg struct {
 	unresolved map[string]bool
 	objType    map[*ast.Object]string
 	objBusy    map[*ast.Object]bool
+	guards     map[string]string // guarded Session field -> mutex field
+	goStarted  map[*lfunc]bool
+	methodVals map[*lfunc]bool
 }
 
 type lctx struct {
@@ -92,7 +97,8 @@ func posStr(p token.Pos) string {
 }
 
 func loadLockProg(repo string) *lockProg {
-	p := &lockProg{pkgs: map[string]*lpkg{}, unresolved: map[string]bool{}, objType: map[*ast.Object]string{}, objBusy: map[*ast.Object]bool{}}
+	p := &lockProg{pkgs: map[string]*lpkg{}, unresolved: map[string]bool{}, objType: map[*ast.Object]string{}, objBusy: map[*ast.Object]bool{},
+		goStarted: map[*lfunc]bool{}, methodVals: map[*lfunc]bool{}}
 	var dirs []string
 	dirs = append(dirs, filepath.Join(repo, "torrent"))
 	_ = filepath.Walk(filepath.Join(repo, "internal"), func(path string, fi os.FileInfo, err error) error {
@@ -111,7 +117,7 @@ func loadLockProg(repo string) *lockProg {
 			n := fi.Name()
 			return !strings.HasSuffix(n, "_test.go") && !strings.HasPrefix(n, "zz_verif") &&
 				!strings.HasSuffix(n, "_windows.go") && !strings.HasSuffix(n, "_freebsd.go")
-		}, 0)
+		}, parser.ParseComments)
 		if err != nil {
 			continue
 		}
@@ -778,7 +784,7 @@ func (w *walker) acquire(st *lstate, name string, pos token.Pos, excl, loopDep b
 // async analyses a function literal that runs on another goroutine (go statement, time.AfterFunc) as a function of its own.
 func (w *walker) async(lit *ast.FuncLit, kind string) {
 	w.asyncN++
-	nf := &lfunc{pkg: w.fn.pkg, file: w.fn.file, body: lit.Body, name: fmt.Sprintf("%s$%s%d", w.fn.name, kind, w.asyncN)}
+	nf := &lfunc{pkg: w.fn.pkg, file: w.fn.file, body: lit.Body, name: fmt.Sprintf("%s$%s%d", w.fn.name, kind, w.asyncN), parent: w.fn}
 	w.c.p.funcs = append(w.c.p.funcs, nf)
 	nw := &walker{c: &lctx{p: w.c.p, pkg: w.c.pkg, file: w.c.file, fn: nf}, fn: nf}
 	nw.block(lit.Body.List, &lstate{})
@@ -906,6 +912,14 @@ func (w *walker) expr(e ast.Expr, st *lstate) {
 			return false
 		case *ast.SelectorExpr:
 			w.sessionFieldAccess(x, st, false)
+			// a method value (not in call position) may be called from anywhere later
+			if t := w.c.typeOf(x.X); t != "" {
+				if _, isField := w.c.p.fieldType(t, x.Sel.Name, 0); !isField {
+					if m := w.c.p.findMethod(t, x.Sel.Name, 0); m != nil {
+						w.c.p.methodVals[m] = true
+					}
+				}
+			}
 		case *ast.UnaryExpr:
 			if se, ok := x.X.(*ast.SelectorExpr); ok && x.Op == token.ARROW && se.Sel.Name == "doneC" && deref(w.c.typeOf(se.X)) == "torrent.torrent" {
 				w.touch(st, loopLock, x.Pos())
@@ -994,8 +1008,12 @@ func (w *walker) stmt(s ast.Stmt, st *lstate) bool {
 			if w.joins {
 				w.block(fl.Body.List, st.copy())
 			}
-		} else if f := w.c.resolveCall(x.Call); f != nil && w.joins {
-			w.fn.calls = append(w.fn.calls, callSite{callee: f, pos: x.Call.Pos(), held: st.snapshot()})
+		} else if f := w.c.resolveCall(x.Call); f != nil {
+			w.c.p.goStarted[f] = true
+			w.fn.goCalls = append(w.fn.goCalls, f)
+			if w.joins {
+				w.fn.calls = append(w.fn.calls, callSite{callee: f, pos: x.Call.Pos(), held: st.snapshot()})
+			}
 		}
 	case *ast.AssignStmt:
 		for _, r := range x.Rhs {
@@ -1179,6 +1197,7 @@ type lockFacts struct {
 }
 
 func analyseLocks(p *lockProg) *lockFacts {
+	p.guards, _ = sessionGuards(p)
 	base := append([]*lfunc(nil), p.funcs...)
 	for _, f := range base {
 		w := &walker{c: &lctx{p: p, pkg: f.pkg, file: f.file, fn: f}, fn: f}
